@@ -14,7 +14,7 @@ from unified_planning.model import (DurativeAction, InstantaneousAction, Problem
                                     GlobalStartTiming, ClosedTimeInterval, OpenTimeInterval, TimePointInterval,
                                     FixedDuration, ClosedDurationInterval, OpenDurationInterval,
                                     LeftOpenDurationInterval, UPState)
-from unified_planning.model.metrics import MinimizeMakespan, MinimizeActionCosts
+from unified_planning.model.metrics import MinimizeMakespan, MinimizeActionCosts, TemporalOversubscription
 from unified_planning.model.contingent import ContingentProblem
 from unified_planning.model.problem_kind import ProblemKind, all_features, get_valid_features
 from unified_planning.model.problem_kind_versioning import FEATURES_VERSIONS, LATEST_PROBLEM_KIND_VERSION
@@ -27,8 +27,21 @@ GEN = ["Features", "Kinds"]
 CORR_NAME = "declared-kinds-and-pipeline-acceptance"
 RULE = ("seven case shapes. (probs) one real problem — a bundled example (unified_planning.test.examples, incl. the "
         "multi-agent ones), a problem of harness/upp.py ProblemGen (classical/numeric, metrics, invariants, undefined "
-        "values, bounded/object/real fluents) or its temporal variant (durative actions with fixed/interval/fluent "
-        "durations, start/end/intermediate/overall conditions and effects, timed effects and goals, makespan) — is given "
+        "values, bounded/object/real fluents; 30% with their metric replaced by a number-pure NumGen metric) or its temporal "
+        "variant (durative actions with fixed/interval/fluent "
+        "durations, start/end/intermediate/overall conditions and effects, timed effects and goals, makespan), or (40% of the "
+        "generated problems) a NumGen problem `num` / its rich temporal variant `tnum`: small problems built around ONE "
+        "number-typed family of the kind kept pure (only real or only integer numbers, because a feature set cannot show a "
+        "change the other number type already hides) — Oversubscription / TemporalOversubscription goals that COINCIDE after a "
+        "rewriting (g, g and true, g or false, not not g, g and g, Forall/Exists over a one-object type, Forall v. bq(v) vs the "
+        "written-out conjunction, Exists vs the disjunction, at == t1 vs t1 == at, x <= 2 vs not (2 < x)) with non-integer real gains "
+        "adding up to an integer within a group (1/2+1/2, 1/3+2/3, 3/2+1/2, 1/3+1/3+1/3 ...), all-real, all-integer or mixed gains; "
+        "action costs that are real expressions with an integer value (1/2*2, 4/2, 3/2-1/2), non-integer ones, static real "
+        "fluents with integer or non-integer values (0-ary and over the action's parameter), integer expressions, with/without "
+        "default, for some or all actions; final-value metrics over numeric fluents; numeric fluents of one type only "
+        "(none/int/real/both), static ones used only in costs or durations; durations of one number type (real expressions "
+        "with an integer value, divisions, static fluents); plus quantified/negative/disjunctive/equality conditions, "
+        "conditional effects, bounded types, an object fluent and a state invariant so that every remover has work to do — is given "
         "to EVERY compiler class whose supports() accepts its kind; compared: the real resulting_problem_kind(kind) and the "
         "features of the compiled problem's kind outside it, against the model's transformer and `<=` on the observed "
         "kinds. (pipe) the same problems through Factory.Compiler(problem_kind=kind, compilation_kinds=cks) for ordered "
@@ -40,7 +53,8 @@ RULE = ("seven case shapes. (probs) one real problem — a bundled example (unif
         "(so that most are supported), the features deprecated since, the features that trigger the additions of "
         "utils.rewritten_problem_kind, and random others. (up) utils._kind_at_latest_version alone on kinds of every version. (sk) supported_kind and supports_compilation of every class. (chain) the factory's "
         "declared chain on random/realistic kinds. Non-trivial = (probs) some compiler compiled the problem and changed its "
-        "kind; (pipe) a pipeline of >= 2 stages ran to the end; (rk) the transformer changed the kind (an older kind: the result has features the "
+        "kind (distribution: number-type-gained:<class>:<feature> counts the compilations after which the compiled kind has an "
+        "INT_/REAL_ number feature the input lacks, metric:* the metric family / purity of the generated problem); (pipe) a pipeline of >= 2 stages ran to the end; (rk) the transformer changed the kind (an older kind: the result has features the "
         "upgrade or the body added) or failed its version assertion; (up) the kind was older and got upgraded; (chain) >= 2 stages selected or no engine found.")
 ASSUMPTIONS = [
     "a compiler that raises on a problem inside its supported kind (or does not finish within 8 s: a DNF can blow up) "
@@ -68,9 +82,13 @@ MODELLED = ["regenerated from source on every run (harness/translate_C09.py): ev
             "modelled by hand (tied by correspondence): ProblemKindMeta._set/_unset/_has, clone, ProblemKind.__le__ (C33), "
             "the ProblemKind constructor's assertions, the compilers-pipeline branch of Factory._get_engine and "
             "_get_engine_class for the COMPILER mode",
+            "read from the code by hand: WHICH compiler classes simplify durations / action costs (Grounder, "
+            "TrajectoryConstraintsRemover, UsertypeFluentsRemover) or sum oversubscription gains (BoundedTypesRemover, "
+            "StateInvariantsRemover) — the table numberRewriters of Props/C09Numbers.lean; the oracle watches every class for "
+            "number-type features outside its declaration, so a class missing from the table is a VIOLATION, not a silent gap",
             "NOT modelled: the compilers themselves and Problem.kind (clause 1 of the property is checked on the real code "
             "by the oracle; its Lean statement C09_compiler_full is a hypothesis of the pipeline theorems)"]
-EXTRA_PROPS = ["UPVerif.Props.C09Versions"]
+EXTRA_PROPS = ["UPVerif.Props.C09Versions", "UPVerif.Props.C09Numbers"]
 BUDGET_S = {"quick": 70, "thorough": 700}
 SEARCH_S = {"quick": 60, "thorough": 300}
 
@@ -166,11 +184,35 @@ def examples():
     return _EXAMPLES
 
 
-def temporalize(P, rng):
+def rich_duration(P, em, rng, mode):
+    """a duration bound whose NUMBER TYPE a rewriting can change (rich temporal variant): mode real = expressions of
+    real type (constants, real operations whose value is an integer, a division of integers, a static real fluent whose
+    value may be an integer), mode int = expressions of integer type"""
+    R = lambda a, b: em.Real(Fraction(a, b))
+    names = {f.name for f in P.fluents}
+    if mode == "real":
+        pool = [R(3, 2), R(5, 2), em.Times(R(1, 2), em.Int(2)), em.Plus(R(1, 2), R(1, 2)), em.Plus(R(1, 2), R(3, 2)),
+                em.Div(em.Int(4), em.Int(2)), em.Div(em.Int(3), em.Int(2)), em.Minus(R(5, 2), R(1, 2))]
+        if "zs" in names:
+            zs = em.FluentExp(P.fluent("zs"))
+            pool += [em.Plus(zs, R(1, 2)), em.Times(zs, em.Int(2)), zs]
+    else:
+        pool = [em.Int(1), em.Int(2), em.Int(3), em.Plus(em.Int(1), em.Int(1)), em.Times(em.Int(2), em.Int(2))]
+        if "xs" in names:
+            xs = em.FluentExp(P.fluent("xs"))
+            pool += [em.Plus(xs, em.Int(1)), xs]
+    return rng.choice(pool)
+
+
+def temporalize(P, rng, rich=False):
     """temporal variant of an instantaneous problem (same environment): actions become durative with random
-    duration shapes and condition/effect timings; timed effects, timed goals and a makespan metric are added"""
+    duration shapes and condition/effect timings; timed effects, timed goals and a makespan metric are added.
+    rich (the `tnum` source): the durations are of ONE number type per problem (real expressions that simplify to
+    integers, divisions, static fluents; or integer expressions; or the plain mix) and an Oversubscription metric
+    becomes a TemporalOversubscription (goals that coincide after a rewriting keep one interval)"""
     env = P.environment
     em = env.expression_manager
+    dmode = rng.choice(["real", "real", "real", "int", "mix"]) if rich else "mix"
     Q = Problem(P.name + "_t", env)
     for f in P.fluents:
         d = P.fluents_defaults.get(f, None)
@@ -178,7 +220,8 @@ def temporalize(P, rng):
     Q.add_objects(P.all_objects)
     for f, v in P.explicit_initial_values.items():
         Q.set_initial_value(f, v)
-    num = [f for f in P.fluents if (f.type.is_int_type() or f.type.is_real_type()) and f.arity == 0]
+    num = [f for f in P.fluents if (f.type.is_int_type() or f.type.is_real_type()) and f.arity == 0
+           and not (rich and f.name in ("zs", "xs"))]        # the static fluents of NumGen stay static
     amap = {}
     for a in P.actions:
         if rng.random() < 0.3:
@@ -188,7 +231,16 @@ def temporalize(P, rng):
             continue
         b = DurativeAction(a.name, OrderedDict((p.name, p.type) for p in a.parameters), env)
         k = rng.random()
-        if k < 0.3:
+        if dmode != "mix":
+            lo = rich_duration(P, em, rng, dmode)
+            try:
+                if rng.random() < 0.6:
+                    b.set_fixed_duration(lo)
+                else:       # [lo, lo + lo'] with lo' of the same number type: never an empty interval
+                    b.set_closed_duration_interval(lo, em.Plus(lo, rich_duration(P, em, rng, dmode)))
+            except Exception:
+                b.set_fixed_duration(lo)
+        elif k < 0.3:
             b.set_fixed_duration(rng.choice([1, 2, 3]))
         elif k < 0.4:
             b.set_fixed_duration(Fraction(3, 2))
@@ -248,6 +300,11 @@ def temporalize(P, rng):
                 Q.add_quality_metric(MinimizeActionCosts({amap[a]: c for a, c in m.costs.items()}, m.default, env))
             except Exception:
                 pass
+        elif rich and m.is_oversubscription() and rng.random() < 0.65:
+            ivs = [ClosedTimeInterval(GlobalStartTiming(1), GlobalStartTiming(4)), TimePointInterval(GlobalStartTiming(6)),
+                   OpenTimeInterval(GlobalStartTiming(0), GlobalStartTiming(5))]
+            one = rng.choice(ivs) if rng.random() < 0.7 else None
+            Q.add_quality_metric(TemporalOversubscription({(one or rng.choice(ivs[:2]), g): v for g, v in m.goals.items()}, env))
         elif not m.is_minimize_sequential_plan_length():
             Q.add_quality_metric(m)
     if not Q.quality_metrics and rng.random() < 0.25:
@@ -260,12 +317,303 @@ def temporalize(P, rng):
     return Q
 
 
+# ------------------------------------------------------------------------------------------------
+# NumGen: problems in which the TYPE or VALUE of a number decides a feature of the kind, and a rewriting can change it
+# ------------------------------------------------------------------------------------------------
+def _fl(ref, *args):
+    return ["fl", ref] + list(args)
+
+
+def _o(n):
+    return ["o", n, dict(map(tuple, NumGen.OBJECTS))[n]]
+
+
+def _r(q):
+    return ["r", q]
+
+
+def _i(n):
+    return ["i", str(n)]
+
+
+TRUE_S, FALSE_S = ["b", "T"], ["b", "F"]
+UT = lambda n: ["user", n]
+
+
+class NumGen:
+    """Small classical/numeric problems (wire format of harness/upp.py) built around ONE number-typed family of the kind
+    at a time, kept PURE (only real, or only integer numbers in that family), because a feature set cannot show a
+    change that the other number type already hides:
+
+      gains of an Oversubscription metric over goals that COINCIDE after a rewriting — g, (g and true), (true and g),
+        (g or false), not not g, (g and g), (g or g), Forall/Exists over the one-object type U of a body without the
+        variable, Forall u:U. bu(u) / Exists u:U. bu(u) / bu(u1), Forall v:T. bq(v) / the written-out conjunction,
+        at == t1 / t1 == at, x <= 2 / not (2 < x) / x + 0 <= 2 — with gains that are all non-integer reals adding up to
+        an integer within a group (1/2 + 1/2, 1/3 + 2/3, 3/2 + 1/2, 1/3 + 1/3 + 1/3 ...), all real, all integer or mixed;
+      action costs that are real expressions with an integer value (1/2 * 2, 1/2 + 1/2, 3/2 - 1/2, 4 / 2), non-integer
+        real ones, a static real fluent (integer or non-integer value, 0-ary or over the action's parameter), integer
+        expressions, with or without default cost, for some or all actions;
+      final-value metrics over the numeric / object fluents a compiler replaces;
+      numeric fluents of one type only (none, int, real, both), static ones used only in costs (and, in the temporal
+        variant, durations), bounded ones, an object fluent, quantified / negative / disjunctive / equality conditions,
+        conditional effects, a state invariant — so that every remover has something to do.
+    """
+    TYPES = [["T", "_"], ["S", "T"], ["U", "_"]]
+    OBJECTS = [["t1", "T"], ["s1", "S"], ["s2", "S"], ["u1", "U"]]
+    B0, B1 = ["b0", "bool", []], ["b1", "bool", []]
+    BU, BQ = ["bu", "bool", [UT("U")]], ["bq", "bool", [UT("T")]]
+    AT = ["at", UT("T"), []]
+    X, XS, XB = ["x", ["int", "_", "_"], []], ["xs", ["int", "_", "_"], []], ["xb", ["int", "0", "4"], []]
+    Z, ZS, ZQ = ["z", ["real", "_", "_"], []], ["zs", ["real", "_", "_"], []], ["zq", ["real", "_", "_"], [UT("T")]]
+    ZB = ["zb", ["real", "0", "5/2"], []]
+    # groups of non-integer real gains that add up to an integer (also pairwise inside the triples)
+    PARTS = {1: [["1/2"], ["3/2"], ["5/3"]],
+             2: [["1/2", "1/2"], ["1/3", "2/3"], ["3/2", "1/2"], ["1/4", "3/4"], ["5/2", "3/2"], ["7/3", "2/3"]],
+             3: [["1/3", "1/3", "1/3"], ["1/2", "1/4", "1/4"], ["1/2", "1/2", "1/2"], ["2/3", "2/3", "2/3"], ["3/2", "1/4", "1/4"]]}
+
+    def __init__(self, rng):
+        self.rng = rng
+
+    # -- goals and their variants ---------------------------------------------------------------
+    def base_goals(self, fl):
+        b0, b1 = _fl(self.B0), _fl(self.B1)
+        out = [b0, b1, ["and", b0, b1], ["or", b0, b1], ["not", b0], _fl(self.BQ, _o("t1")),
+               ["and", _fl(self.BQ, _o("t1")), _fl(self.BQ, _o("s1")), _fl(self.BQ, _o("s2"))],
+               ["or", _fl(self.BQ, _o("s1")), _fl(self.BQ, _o("s2"))]]
+        if "bu" in fl:
+            out += [_fl(self.BU, _o("u1"))] * 2
+        if "at" in fl:
+            out += [["eq", _fl(self.AT), _o("t1")]] * 2
+        if "x" in fl:
+            out += [["le", _fl(self.X), _i(2)]]
+        if "z" in fl:
+            out += [["lt", _fl(self.Z), _r("3/2")]]
+        return out
+
+    def variants(self, g):
+        """expressions that some rewriting (simplification, quantifier expansion, NNF/DNF, negation or user-type
+        fluent removal) turns into what it turns `g` into; `g` itself first"""
+        u, v, k = ["u", UT("U")], ["v", UT("T")], ["k", UT("S")]
+        out = [g, ["and", g, TRUE_S], ["and", TRUE_S, g], ["or", g, FALSE_S], ["not", ["not", g]], ["and", g, g], ["or", g, g],
+               ["forall", [u], g], ["exists", [u], g]]
+        if g == _fl(self.BU, _o("u1")):
+            out += [["forall", [u], _fl(self.BU, ["v"] + u)], ["exists", [u], _fl(self.BU, ["v"] + u)]] * 2
+        if g[0] == "and" and len(g) == 4:
+            out += [["forall", [v], _fl(self.BQ, ["v"] + v)]] * 3
+        if g[0] == "or" and g[1][1] == self.BQ:
+            out += [["exists", [k], _fl(self.BQ, ["v"] + k)]] * 3
+        if g[0] in ("and", "or") and len(g) == 3:
+            out += [[g[0], g[2], g[1]]]
+        if g[0] == "eq":
+            out += [["eq", g[2], g[1]]] * 2
+        if g[0] == "not":
+            out += [["not", ["and", g[1], TRUE_S]], ["not", ["or", g[1], g[1]]]]
+        if g[0] == "le":
+            out += [["not", ["lt", g[2], g[1]]], ["le", ["plus", g[1], _i(0)], g[2]]]
+        if g[0] == "lt":
+            out += [["not", ["le", g[2], g[1]]], ["lt", ["times", g[1], _i(1)], g[2]]]
+        return out
+
+    def oversub(self, fl):
+        r = self.rng
+        mode = r.choice(["sum", "sum", "sum", "sum", "real", "int", "mixed"])
+        goals, seen = [], set()
+        for g in r.sample(self.base_goals(fl), r.choice([1, 1, 2])):
+            m = r.choice([2, 2, 2, 3, 1])
+            vs = []
+            for c in [g] * (r.random() < 0.6) + r.sample(self.variants(g)[1:], len(self.variants(g)) - 1):
+                key = sexp.dumps(c)
+                if key not in seen and len(vs) < m:
+                    seen.add(key)
+                    vs.append(c)
+            if mode == "sum":
+                gains = list(r.choice(self.PARTS[len(vs)]))
+                r.shuffle(gains)
+            elif mode == "real":
+                gains = [r.choice(["1/2", "1/3", "5/2", "7/3", "1/10"]) for _ in vs]
+            elif mode == "int":
+                gains = [r.choice(["1", "2", "3"]) for _ in vs]
+            else:
+                gains = [r.choice(["1", "2", "1/2", "3/2", "1/3"]) for _ in vs]
+            goals += [[c, w] for c, w in zip(vs, gains)]
+        return ["oversub", goals], "oversub-" + mode
+
+    # -- action costs ---------------------------------------------------------------------------
+    def cost(self, mode, fl, params):
+        r = self.rng
+        par = [p for p in params if p[1][1] in ("T", "S")]
+        if mode == "mixed":
+            mode = r.choice(["real", "int"])
+        if mode == "real":
+            pool = [_r("1/2"), _r("3/2"), ["times", _r("1/2"), _i(2)], ["plus", _r("1/2"), _r("1/2")], ["minus", _r("3/2"), _r("1/2")],
+                    ["div", _i(4), _i(2)], ["div", _i(3), _i(2)], ["times", _r("3/2"), _r("2/3")], ["plus", _r("1/3"), _r("1/2")]]
+            if "zs" in fl:
+                pool += [["times", _fl(self.ZS), _i(2)], ["plus", _fl(self.ZS), _r("1/2")], _fl(self.ZS)]
+            if "zq" in fl and par:
+                pool += [_fl(self.ZQ, ["p"] + par[0]), ["plus", _fl(self.ZQ, ["p"] + par[0]), _r("1/2")]] * 2
+            if "z" in fl:
+                pool += [["plus", _fl(self.Z), _r("1/2")]]
+        else:
+            pool = [_i(1), _i(3), ["plus", _i(1), _i(1)], ["times", _i(2), _i(3)], ["minus", _i(3), _i(1)]]
+            if "xs" in fl:
+                pool += [["times", _fl(self.XS), _i(2)], ["plus", _fl(self.XS), _i(1)], _fl(self.XS)]
+            if "x" in fl:
+                pool += [["plus", _fl(self.X), _i(1)]]
+        return r.choice(pool)
+
+    def costs(self, fl, actions):
+        r = self.rng
+        mode = r.choice(["real", "real", "real", "int", "mixed"])
+        cs = [[a[1], self.cost(mode, fl, a[2])] for a in actions if r.random() < 0.7]
+        if not cs:
+            cs = [[actions[0][1], self.cost(mode, fl, actions[0][2])]]
+        d = r.random()
+        default = "_" if d < 0.5 else self.cost(mode, fl, []) if d < 0.9 else r.choice([_i(0), _i(1)])
+        return ["min-action-costs", cs, default], "costs-" + mode
+
+    def final(self, fl):
+        r = self.rng
+        pool = []
+        if "z" in fl:
+            pool += [_fl(self.Z), ["times", _r("1/2"), _fl(self.Z)], ["plus", _fl(self.Z), _r("1/2")], ["div", _fl(self.Z), _i(2)]]
+        if "x" in fl:
+            pool += [_fl(self.X), ["times", _i(2), _fl(self.X)], ["div", _fl(self.X), _i(2)], ["minus", _i(0), _fl(self.X)]]
+        if "x" in fl and "z" in fl:
+            pool += [["plus", _fl(self.X), _fl(self.Z)]]
+        if "xb" in fl:
+            pool += [_fl(self.XB), ["plus", _fl(self.XB), _i(1)]]
+        if "zb" in fl:
+            pool += [_fl(self.ZB)]
+        if "zs" in fl and "z" in fl:
+            pool += [["times", _fl(self.ZS), _fl(self.Z)]]
+        if not pool:
+            return None, None
+        return [r.choice(["min-final", "max-final"]), r.choice(pool)], "final"
+
+    # -- conditions, effects, actions -----------------------------------------------------------
+    def cond(self, fl, params):
+        r = self.rng
+        b0, b1 = _fl(self.B0), _fl(self.B1)
+        u, k = ["u", UT("U")], ["k", UT("S")]
+        pool = [b0, b1, ["not", b0], ["not", b1], ["or", b0, b1], ["or", ["not", b0], b1], ["and", b0, ["not", b1]],
+                ["forall", [u], _fl(self.BU, ["v"] + u)], ["exists", [k], _fl(self.BQ, ["v"] + k)],
+                ["forall", [k], ["not", _fl(self.BQ, ["v"] + k)]], _fl(self.BQ, _o("s1"))]
+        for pn, pt in params:
+            if pt == UT("U"):
+                pool += [["not", _fl(self.BU, ["p", pn, pt])], _fl(self.BU, ["p", pn, pt])]
+            else:
+                pool += [_fl(self.BQ, ["p", pn, pt]), ["not", _fl(self.BQ, ["p", pn, pt])]]
+                if "at" in fl and pt == UT("T"):
+                    pool += [["eq", _fl(self.AT), ["p", pn, pt]], ["not", ["eq", _fl(self.AT), ["p", pn, pt]]]]
+        if "at" in fl:
+            pool += [["eq", _fl(self.AT), _o("t1")], _fl(self.BQ, _fl(self.AT))]
+        if "x" in fl:
+            pool += [["le", _fl(self.X), _i(3)], ["lt", _i(0), _fl(self.X)]]
+        if "z" in fl:
+            pool += [["le", _fl(self.Z), _r("5/2")], ["lt", _fl(self.Z), _i(3)]]
+        if "xb" in fl:
+            pool += [["lt", _fl(self.XB), _i(4)]]
+        return r.choice(pool)
+
+    def effect(self, fl, params):
+        r = self.rng
+        c = TRUE_S if r.random() < 0.75 else self.cond(fl, params)
+        opts = [["assign", _fl(self.B0), ["b", r.choice("TF")]], ["assign", _fl(self.B1), ["b", r.choice("TF")]],
+                ["assign", _fl(self.BQ, _o(r.choice(["t1", "s1", "s2"]))), TRUE_S]]
+        for pn, pt in params:
+            if pt == UT("U"):
+                opts += [["assign", _fl(self.BU, ["p", pn, pt]), TRUE_S]] * 2
+            else:
+                opts += [["assign", _fl(self.BQ, ["p", pn, pt]), ["b", r.choice("TF")]]] * 2
+                if "at" in fl:
+                    opts += [["assign", _fl(self.AT), ["p", pn, pt]]]
+        if "at" in fl:
+            opts += [["assign", _fl(self.AT), _o(r.choice(["t1", "s1"]))]]
+        if "x" in fl:
+            opts += [["increase", _fl(self.X), _i(r.choice([1, 2]))], ["decrease", _fl(self.X), _i(1)],
+                     ["assign", _fl(self.X), ["plus", _fl(self.X), _i(1)]], ["assign", _fl(self.X), _i(0)]]
+        if "z" in fl:
+            opts += [["increase", _fl(self.Z), _r(r.choice(["1/2", "3/2"]))], ["decrease", _fl(self.Z), _r("1/2")],
+                     ["assign", _fl(self.Z), ["times", _fl(self.Z), _r("1/2")]], ["increase", _fl(self.Z), _i(1)]]
+        if "xb" in fl:
+            opts += [["increase", _fl(self.XB), _i(1)], ["assign", _fl(self.XB), _i(r.choice([0, 4]))]]
+        if "zb" in fl:
+            opts += [["increase", _fl(self.ZB), _r("1/2")]]
+        kind, f, v = r.choice(opts)
+        return ["eff", kind, f, v, c, []]
+
+    def action(self, i, fl):
+        r = self.rng
+        params = [] if r.random() < 0.4 else [["p0", UT(r.choice(["U", "T", "S"]))]]
+        pre = [self.cond(fl, params) for _ in range(r.choice([0, 1, 1, 2]))]
+        effs, targets = [], set()
+        for _ in range(r.choice([1, 2, 2, 3])):
+            e = self.effect(fl, params)
+            key = sexp.dumps(e[2])
+            if key in targets:      # one effect per target: no conflicting-effects rejections
+                continue
+            targets.add(key)
+            effs.append(e)
+        return ["action", f"a{i}", params, ["pre"] + pre, ["effs"] + effs]
+
+    def problem(self, name="n"):
+        r = self.rng
+        prof = r.choice(["none", "int", "int", "real", "real", "real", "both", "both"])
+        fls = [self.B0, self.B1, self.BU, self.BQ]
+        if r.random() < 0.4:
+            fls.append(self.AT)
+        if prof in ("int", "both"):
+            fls += [self.X] + [self.XS] * (r.random() < 0.6) + [self.XB] * (r.random() < 0.25)
+        if prof in ("real", "both"):
+            fls += [self.Z] * (r.random() < 0.8) + [self.ZS] * (r.random() < 0.7) + [self.ZQ] * (r.random() < 0.5) + [self.ZB] * (r.random() < 0.15)
+        fl = {f[0] for f in fls}
+        fluents = []
+        for f in fls:
+            n = f[0]
+            if n in ("b0", "b1", "bu", "bq"):
+                d = ["b", r.choice("FFT")]
+            elif n == "at":
+                d = _o(r.choice(["t1", "s1"]))
+            elif n in ("x", "xs", "xb"):
+                d = _i(r.choice([0, 1, 2]))
+                if n == "x" and r.random() < 0.12:
+                    d = "_"
+            elif n in ("zs", "zq"):   # a static real fluent: integer or non-integer value
+                d = r.choice([_i(2), _i(1), _r("1/2"), _r("3/2")])
+            else:
+                d = r.choice([_i(0), _i(1), _r("1/2")])
+                if n == "z" and r.random() < 0.12:
+                    d = "_"
+            fluents.append([f, d])
+        init = []
+        if "zq" in fl and r.random() < 0.5:
+            init.append([_fl(self.ZQ, _o("s1")), r.choice([_i(3), _r("5/2")])])
+        actions = [self.action(i, fl) for i in range(r.choice([1, 2, 2, 3]))]
+        goals = [self.cond(fl, []) for _ in range(r.choice([0, 1, 1]))]
+        traj = []
+        if r.random() < 0.22:
+            traj.append(["always", r.choice([["or", _fl(self.B0), ["not", _fl(self.B1)]]] + ([["le", _fl(self.X), _i(5)]] if "x" in fl else []))])
+        k = r.random()
+        metric = tag = None
+        if k < 0.45:
+            metric, tag = self.oversub(fl)
+        elif k < 0.8:
+            metric, tag = self.costs(fl, actions)
+        elif k < 0.9:
+            metric, tag = self.final(fl)
+        ps = ["problem", name, ["types"] + self.TYPES, ["objects"] + self.OBJECTS, ["fluents"] + fluents, ["init"] + init,
+              ["actions"] + actions, ["goals"] + goals, ["traj"] + traj, ["metrics"] + ([metric] if metric else [])]
+        return ps
+
+
 def problem_of(src):
     if src[0] == "ex":
         return examples()[src[1]]
     P, _ = upp.build_problem(src[1])
     if src[0] == "tgen":
         P = temporalize(P, random.Random(int(src[2])))
+    elif src[0] == "tnum":
+        P = temporalize(P, random.Random(int(src[2])), rich=True)
     return P
 
 
@@ -516,10 +864,51 @@ def gen_problem_src(rng, tier):
             upp.build_problem(ps)
         except Exception:
             continue
+        if rng.random() < 0.3:
+            ps2 = transplant_metric(ps, rng)
+            try:
+                upp.build_problem(ps2)
+                ps = ps2
+            except Exception:
+                pass
         if r < 0.6:
             return ["gen", ps]
         return ["tgen", ps, str(rng.randrange(1 << 30))]
     return ["ex", "basic"]
+
+
+def transplant_metric(ps, rng):
+    """a ProblemGen problem (forall / conditional effects, aliasing, invariants, undefined values ...) with its
+    metric replaced by a number-pure NumGen metric over the fluents both generators declare"""
+    g = NumGen(rng)
+    fl = {f[0][0] for f in upp.get(ps, "fluents")} & {"b0", "b1", "bq", "x", "xb", "z", "zb", "at"}
+    actions = upp.get(ps, "actions")
+    k = rng.random()
+    m = g.oversub(fl)[0] if k < 0.5 else g.costs(fl, actions)[0] if k < 0.9 and actions else g.final(fl)[0]
+    if m is None:
+        return ps
+    return [s if not (isinstance(s, list) and s and s[0] == "metrics") else ["metrics", m] for s in ps]
+
+
+def gen_num_src(rng):
+    """a NumGen problem (`num`) or its rich temporal variant (`tnum`)"""
+    g = NumGen(rng)
+    for _ in range(20):
+        ps = g.problem("n")
+        src = ["num", ps] if rng.random() < 0.6 else ["tnum", ps, str(rng.randrange(1 << 30))]
+        try:
+            problem_of(src).kind
+        except Exception:
+            continue
+        return src
+    return ["ex", "basic"]
+
+
+NUM_SHARE = 0.4
+
+
+def gen_src(rng, tier):
+    return gen_num_src(rng) if rng.random() < NUM_SHARE else gen_problem_src(rng, tier)
 
 
 PIPE_CKS = ["GROUNDING", "CONDITIONAL_EFFECTS_REMOVING", "DISJUNCTIVE_CONDITIONS_REMOVING", "NEGATIVE_CONDITIONS_REMOVING",
@@ -583,8 +972,8 @@ def cases(rng, tier):
                             version=rng.choice([LATEST] * 7 + [None] + list(range(1, LATEST))) if rng.random() < 0.9 else None))
         yield ["chain", k, rand_pipeline(rng) if rng.random() < 0.7 else
                [rng.choice(PIPE_CKS + CKS) for _ in range(rng.choice([1, 2, 2, 3]))]]
-    for i in range(200 * n):
-        src = gen_problem_src(rng, tier)
+    for i in range({"quick": 240, "thorough": 2800}[tier]):
+        src = gen_src(rng, tier)
         yield ["probs", src]
         if i % 2 == 0:
             yield ["pipe", src, rand_pipeline(rng)]
@@ -595,7 +984,7 @@ def search(rng, tier):
         for c in old_version_cases(rng, 1):
             yield c
         for _ in range(10):
-            src = gen_problem_src(rng, tier)
+            src = gen_src(rng, tier)
             yield ["probs", src]
             yield ["pipe", src, rand_pipeline(rng)]
 
@@ -889,6 +1278,45 @@ def nontrivial(payload, ans):
     return False
 
 
+NUMBER_TYPE_FEATURES = {"INT_NUMBERS_IN_OVERSUBSCRIPTION", "REAL_NUMBERS_IN_OVERSUBSCRIPTION", "INT_NUMBERS_IN_ACTIONS_COST",
+                        "REAL_NUMBERS_IN_ACTIONS_COST", "INT_TYPE_DURATIONS", "REAL_TYPE_DURATIONS", "INT_FLUENTS", "REAL_FLUENTS"}
+
+
+def _cost_type(c):
+    """number type of a cost expression of the wire format (real as soon as a real constant / fluent or a division occurs)"""
+    if c[0] == "r" or c[0] == "div":
+        return "real"
+    if c[0] == "i":
+        return "int"
+    if c[0] == "fl":
+        return "real" if c[1][1][0] == "real" else "int"
+    if c[0] in ("plus", "minus", "times"):
+        return "real" if any(_cost_type(a) == "real" for a in c[1:]) else "int"
+    return "int"
+
+
+def num_tags(ps):
+    """which number-typed family a NumGen problem is built around, and whether it is pure"""
+    ms = upp.get(ps, "metrics")
+    if not ms:
+        return ["metric:no-metric"]
+    m = ms[0]
+    if m[0] == "min-length":
+        return ["metric:plan-length"]
+    if m[0] == "oversub":
+        from itertools import combinations
+        ws = [Fraction(w) for _, w in m[1]]
+        ints = [w.denominator == 1 for w in ws]
+        pure = "int-gains" if all(ints) else "mixed-gains" if any(ints) else "real-gains"
+        summing = not any(ints) and any(sum(c).denominator == 1 for n in (2, 3) for c in combinations(ws, n))
+        return ["metric:oversub", "metric:oversub-" + pure] + (["metric:oversub-real-gains-some-adding-up-to-an-integer"] if summing else [])
+    if m[0] == "min-action-costs":
+        cs = [c for _, c in m[1]] + ([m[2]] if m[2] != "_" else [])
+        kinds = {_cost_type(c) for c in cs}
+        return ["metric:costs", "metric:costs-" + ("real" if kinds == {"real"} else "int" if kinds == {"int"} else "mixed")]
+    return ["metric:final"]
+
+
 def stats(payload, ans):
     t = payload[0]
     tags = [t]
@@ -905,7 +1333,16 @@ def stats(payload, ans):
     if t == "chain":
         tags.append("chain:" + (ans if isinstance(ans, str) else f"ok{len(ans[1])}"))
         tags.append("chain:version-" + payload[1][2])
+    if t in ("probs", "pipe") and payload[1][0] != "ex":
+        tags += num_tags(payload[1][1])
     if t == "probs" and isinstance(ans, list):
+        rec = observe_probs(payload)
+        if rec["kp"] is not None:
+            for row in rec["rows"]:
+                if row["kq"] is not None:
+                    for f in sorted(set(row["kq"][1]) - set(rec["kp"][1])):
+                        if f in NUMBER_TYPE_FEATURES:      # a compilation changed the type of a number
+                            tags.append("number-type-gained:" + row["cls"] + ":" + f)
         for r in ans:
             if len(r) == 3 and isinstance(r[0], str):
                 if r[2] == "compile-error":
@@ -941,6 +1378,19 @@ def _shrink_problem(ps):
         items = ps[i][1:]
         for j in range(len(items)):
             yield ps[:i] + [[key] + items[:j] + items[j + 1:]] + ps[i + 1:]
+    im = sec("metrics")
+    for j, m in enumerate(ps[im][1:]):
+        if m[0] == "oversub" and len(m[1]) > 1:          # one oversubscription goal less
+            for x in range(len(m[1])):
+                nm = ["oversub", m[1][:x] + m[1][x + 1:]]
+                yield ps[:im] + [["metrics"] + ps[im][1:][:j] + [nm] + ps[im][1:][j + 1:]] + ps[im + 1:]
+        if m[0] == "min-action-costs":                  # one cost less / no default cost
+            for x in range(len(m[1])):
+                if len(m[1]) > 1:
+                    nm = [m[0], m[1][:x] + m[1][x + 1:], m[2]]
+                    yield ps[:im] + [["metrics"] + ps[im][1:][:j] + [nm] + ps[im][1:][j + 1:]] + ps[im + 1:]
+            if m[2] != "_":
+                yield ps[:im] + [["metrics"] + ps[im][1:][:j] + [[m[0], m[1], "_"]] + ps[im][1:][j + 1:]] + ps[im + 1:]
     for j, a in enumerate(acts):
         _, name, params, pre, effs = a
         for x in range(1, len(pre)):
@@ -974,7 +1424,7 @@ def shrink(payload):
         for j in range(len(cks)):
             if len(cks) > 1:
                 yield ["pipe", src, cks[:j] + cks[j + 1:]]
-    if t in ("probs", "pipe") and payload[1][0] in ("gen", "tgen"):
+    if t in ("probs", "pipe") and payload[1][0] in ("gen", "tgen", "num", "tnum"):
         src = payload[1]
         for ps in _shrink_problem(src[1]):
             try:
@@ -982,8 +1432,8 @@ def shrink(payload):
             except Exception:
                 continue
             yield [t, [src[0], ps] + src[2:]] + payload[2:]
-        if src[0] == "tgen":
-            yield [t, ["gen", src[1]]] + payload[2:]
+        if src[0] in ("tgen", "tnum"):
+            yield [t, [src[0][1:], src[1]]] + payload[2:]
 
 
 MANIFEST = {
@@ -1001,7 +1451,10 @@ MANIFEST = {
                    "utils._kind_at_latest_version, matched against the source), the upgrade is <=-equivalent to the given kind "
                    "and the identity at the latest version, commutes with the declarations, the transformers are monotone "
                    "across versions, and the factory pipeline theorem holds for an older problem kind (partial: preference "
-                   "lists without Ks0Compiler, which does not upgrade). Clause 1 itself "
+                   "lists without Ks0Compiler, which does not upgrade). Number types (Props/C09Numbers.lean): the classes that simplify "
+                   "durations / action costs or sum oversubscription gains declare, for EVERY input kind with the real-number feature, "
+                   "the integer-number feature the rewriting can produce (C09_declares_integer_counterpart; one kernel evaluation per "
+                   "class and feature plus the monotonicity of the declarations) — a necessary condition of clause 1. Clause 1 itself "
                    "(per compiler, over real compiled problems) is NOT proved — no compiler models yet — and is checked by the "
                    "oracle on the real code for every compiler class on generated and bundled problems; the interpreter of the "
                    "declarations and the chain model are tied to the code by differential runs."),
